@@ -34,7 +34,7 @@ MANIFEST = dict(
          "next scan start inside the retained buffer, previous scan ended no earlier than one delay after it). After ConfigureTriggers the run equals a fresh run on the RETAINED samples followed by the new blocks (runChan_prepend), so all three clauses also cover the tail of the earlier stream that could not be searched before the request (C02_after_reconfigure_full). ",
     note="Trusted: Lean 4.33 kernel (axioms propext, Classical.choice, Quot.sound only; audited every run); the hand-written model is tied to the Go code only by "
          "differential testing with seeded generators (not a proof). The edge, level and auto clauses are all proved across blocks for epochs started by a start or by ConfigureTriggers; "
-         "soundness is proved across blocks for every trigger combination (C02_sound). Epochs started by ConfigurePulseLengths (hold-off reference inherited): the edge clause is proved when the inherited trigger lies below the new search frontier (C02_edge_complete_after_configureLengths; always when the post-trigger length does not grow), otherwise and for the level/auto clauses by the oracle. Two defects found by this "
+         "soundness is proved across blocks for every trigger combination (C02_sound). Epochs started by ConfigurePulseLengths (hold-off reference inherited): the edge and level clauses are proved when the inherited trigger lies below the new search frontier (C02_edge/level_complete_after_configureLengths; always when the post-trigger length does not grow), otherwise and for the auto clause by the oracle. Two defects found by this "
          "check were repaired in /repo (77b7098 retained history after a start with restored settings; 51926cc pseudo trigger at frame 0).",
     technique="Lean 4 theorems (scan-loop specifications + cross-block invariant) over an executable model; independent-scan oracle and model tied to the Go code by a differential correspondence run",
 )
@@ -49,6 +49,7 @@ THEOREMS = [
     ("DastardV.Props.C02", "DastardV.C02.C02_sound_no_auto"),
     ("DastardV.Props.C02", "DastardV.C02.C02_after_reconfigure_full"),
     ("DastardV.Props.C02", "DastardV.C02.C02_edge_complete_after_configureLengths"),
+    ("DastardV.Props.C02", "DastardV.C02.C02_level_complete_after_configureLengths"),
     ("DastardV.Props.C02", "DastardV.C02.configureLengths_epoch"),
     ("DastardV.Lemmas.Reconf", "DastardV.Trig.runChan_prepend"),
     ("DastardV.Props.C02", "DastardV.C02.C02_source_level"),
